@@ -13,6 +13,7 @@ CLAUSES = {
     "setitem-only-target": "item assignment replaces that variable and nothing else, and stores a copy (later changes of the caller's array do not reach the state)",
     "error-leaves-state": "a rejected append raises ValueError and leaves the state unchanged",
     "record-pids": "every output record (sparse: after the writer's own compactify; dense: never compactified) holds exactly the living particles, identifiers strictly increasing with pid[k] >= k, each with its own instance values; particle variables are indexed by identifier",
+    "restart-pids": "identifiers continue across a warm start, also from a file without the num_particles attribute: every record after the restart carries the identifiers (and values) of the uninterrupted run, none is handed out twice",
     "seq-ghost": "after every operation of a sequence the state equals the ghost model",
 }
 BOUNDS = {
@@ -31,6 +32,8 @@ def scenarios(tier):
         for op in ("append_scalar", "append_array", "append_default", "kill_compactify", "setitem", "bad_name", "bad_shape", "bad_ndim"):
             out.append(dict(name=f"step-{op}-n{n}", fn="step", params=dict(n=n, op=op, mmax=mmax), cost=n + 1))
     out.append(dict(name=f"seq-d{depth}", fn="seq", params=dict(depth=depth), cost=50))
+    # identifiers across a restart (the run pair of C08, judged under this property)
+    out.append(dict(name="restart-legacy", fn="restart", params=dict(N=6, P=1, R=2, adv="EF", legacy=True), cost=30))
     for layout in ("sparse", "dense"):
         out.append(dict(name=f"records-{layout}-d3", fn="records", params=dict(depth=3, layout=layout), cost=40))
     return out
@@ -170,6 +173,22 @@ def step(W, p):
     _same_w(W, S, g["w"], "error-leaves-state")
     W.prove(S.npid == npid, "error-leaves-state")
     return (op, n)
+
+
+def restart(W, p):
+    """uninterrupted run vs. warm start from each completed file (harness.c08.run), its obligations counted under restart-pids"""
+    from harness import c08
+
+    orig = W.prove
+
+    def prove(claim, clause, info=None, **kw):
+        return orig(claim, clause if clause == "no-crash" else "restart-pids", info, **kw)
+
+    W.prove = prove
+    try:
+        return c08.run(W, p)
+    finally:
+        del W.prove
 
 
 def records(W, p):
